@@ -35,9 +35,17 @@ def ground_axioms(formulas, rounds=2, pow_as_explog=True, max_pairs=400):
     universe = set()
     for f in formulas:
         ir.subterms(f, universe)
+    def _needs_axioms(t):
+        # x**k with a small integer k is emitted as an exact product: no axioms needed
+        if t.op == 'pow':
+            n = ir._num(t.args[1])
+            if n is not None and n.denominator == 1 and 0 < abs(n) <= 8:
+                return False
+        return t.op in TRANSC
+
     for _round in range(rounds):
-        terms = [t for t in universe if t.op in TRANSC and t not in done]
-        allt = [t for t in universe if t.op in TRANSC]
+        terms = [t for t in universe if _needs_axioms(t) and t not in done]
+        allt = [t for t in universe if _needs_axioms(t)]
         if not terms:
             break
         by = {op: _occ(allt, op) for op in TRANSC}
